@@ -192,7 +192,7 @@ TORCH_KINDS = ['fmap', 'bmap']   # torch has no named-gate constructors
 
 def st_case_torch(hiN, maxlen):
     return st.sampled_from([n for n in (1, 2, 3, 3, 4, 4) if n <= hiN]).flatmap(lambda N: st.fixed_dictionaries(
-        {'be': st.just('torch'), 'N': st.just(N), 'prog': gen.st_program(N, maxlen, ['rot', 'fmap', 'bmap']), 'cfg': st.sampled_from(TORCH_CONFIGS).map(list),
+        {'be': st.just('torch'), 'N': st.just(N), 'prog': gen.st_program(N, maxlen, ['rot', 'rotc', 'fmap', 'bmap']), 'cfg': st.sampled_from(TORCH_CONFIGS).map(list),
          'split': st.integers(0, 20), 'input': st_input(N)}))
 
 
@@ -260,7 +260,7 @@ def st_history(be, hiN, kinds=None, classes=('CliffordCircuit', 'Circuit')):
 
 
 FACETS.append(Facet('np/build-histories', f_history, strategy=lambda t: st_history('np', 4), examples={'quick': 1500, 'thorough': 60000}, shards={'quick': 3, 'thorough': 12}))
-FACETS.append(Facet('torch/build-histories', f_history, strategy=lambda t: st_history('torch', 3, ['rot', 'fmap', 'bmap'], ('CliffordCircuit',)), examples={'quick': 200, 'thorough': 8000},
+FACETS.append(Facet('torch/build-histories', f_history, strategy=lambda t: st_history('torch', 3, ['rot', 'rotc', 'fmap', 'bmap'], ('CliffordCircuit',)), examples={'quick': 200, 'thorough': 8000},
                     shards={'quick': 1, 'thorough': 4}, backend='torch'))
 
 from harness.fuzzfacet import make_fuzz_facet
